@@ -1,5 +1,5 @@
 /- C15 — urlencoded parameters equal the reference split/decoding for any chunking. -/
-import HtpModel.Lemmas.Urlenc
+import HtpModel.Lemmas.UrlencRef
 
 namespace Htp.C15
 open Htp.Urlenc Htp.Gen
@@ -27,6 +27,22 @@ theorem C15_chunking (cfg : DecoderCfg) (chunks : List Bytes) :
 theorem C15_chunking_invariance (cfg : DecoderCfg) (c1 c2 : List Bytes) (h : c1.flatten = c2.flatten) :
     run cfg c1 = run cfg c2 := by
   rw [C15_chunking, C15_chunking, h]
+
+/-- **C15 (reference rule)**: for every decoder configuration and every chunking of every byte string, the reported name/value pairs
+    are exactly those of the reference rule applied to the concatenation - split on '&', split each piece at its first '=', drop
+    only a final empty piece, decode name and value with the configured decoder - in order, empty names and values included. -/
+theorem C15_reference (cfg : DecoderCfg) (chunks : List Bytes) : (run cfg chunks).1 = refPairs cfg chunks.flatten := by
+  rw [C15_chunking]
+  unfold runA
+  simp only
+  have hi : InvA ({} : A) := ⟨rfl, by intro b hb; simp at hb, by intro _ b hb; simp at hb, by intro h; simp at h⟩
+  have := machine_ref cfg chunks.flatten {} hi
+  simpa [curA] using this
+
+/-- the reference rule on a concrete string: a plain pair, an encoded value, an empty piece in the middle (kept), a name without
+    '=', an empty name, an empty value, and a final '&' (the empty piece after it is dropped) -/
+example : refRaw (b!"a=1&b=%41&&c&=d&e=&") =
+    [((b!"a"), (b!"1")), ((b!"b"), (b!"%41")), ([], []), ((b!"c"), []), ([], (b!"d")), ((b!"e"), [])] := by decide
 
 /-- calling finalize a second time changes nothing that is reported (params, flags, status) -/
 theorem C15_finalize_twice (cfg : DecoderCfg) (a : A) :
